@@ -52,8 +52,10 @@ pub(super) fn write_ht(
         sent += 1;
     }
 
+    // make sure that all write requests succeeded.
     while sent > 0 {
-        io_handle.recv().unwrap();
+        // UNWRAP: we receive only what we sent. No `RecvErr` expected.
+        io_handle.recv().unwrap().result?;
         sent -= 1;
     }
 
